@@ -12,7 +12,7 @@ var logic string
 func Family() *rx.Family {
 	return &rx.Family{
 		Name: "s8", Path: "gno.land/r/verif/s8", Logic: logic,
-		Ops: "acdefbgijkhl",
+		Ops: "acdfebgijkhl",
 		Desc: map[byte]string{'a': "al.V++ (al=&root.Arr[1])", 'b': "root.Kids[0].V+=10", 'c': "snap=*root", 'd': "root.Arr[0].V+=100;root.In.L.V+=1000", 'e': "snap.Arr[1].V+=7;snap.In.L.V+=9",
 			'f': "sl=append(sl,&Leaf{fresh})", 'g': "root.M[y]=root.Kids[1]", 'h': "delete(root.M,x)", 'i': "al=&root.In.L", 'j': "root.In.P.V+=5", 'k': "root=&Node{re-attach parts}", 'l': "*root=snap"},
 		Reset: reset, Op: op, Dump: dump,
